@@ -693,6 +693,62 @@ def check_c11(tier, seed):
     return 1 if nviol else 0
 
 
+# ------------------------------------------------------------------ determinism self-test
+
+def selftest():
+    """Every engine: the same seeds in separate processes at GOMAXPROCS 1, 4 and 16 (and twice at 4)
+    must give identical decision traces and outcomes. A mismatch is harness trouble (exit 2)."""
+    import c11, c18
+    t0 = time.time()
+    sc = vlib.Scratch()
+    sc.prepare()
+    sc.corpus()
+    plain = sc.build("./simharness", "simharness")
+    racebin = sc.build("./simharness", "simharness-race", race=True)
+    simacv = sc.build("./cmd", "simacv")
+    testbin = sc.build("./simbubble", "simbubble.test", go=vlib.GO126, test=True)
+    report = {"engine_A": {}, "engine_B": {}, "engine_C": {}}
+    bad = []
+    for mode, binary, race, n in (("c06", plain, False, 32), ("c09", plain, False, 32), ("c10", racebin, True, 32)):
+        sigs = []
+        for gmp, chunk in ((1, 4), (4, 8), (16, 2), (4, 3)):
+            agg = vlib.run_engine_a(sc, binary, mode, "quick", 424242, n, chunk, vlib.NCPU, race=race, refbin=plain, gomaxprocs=gmp)
+            if agg.violations or agg.harness:
+                raise HarnessError("selftest %s: unexpected violation/harness error on the unchanged tree" % mode)
+            sigs.append(agg.tracesigs)
+        diff = [s for s in sigs[0] if any(x.get(s) != sigs[0][s] for x in sigs[1:])]
+        report["engine_A"][mode] = {"seeds": n, "configs": "GOMAXPROCS 1/4/16/4, chunk sizes 4/8/2/3", "diverging_seeds": diff}
+        bad += ["A:%s:%s" % (mode, d) for d in diff]
+    fails = c11.failures(sc)
+    rd = lambda p: open(os.path.join(sc.src, p)).read()
+    job = {"seed": 9001, "k": 1, "profile": rd("test/data/integration/profile1/profile.yaml"), "data": rd("test/data/integration/profile1/negative.data.jsonld"),
+           "entries": c11.ENTRIES, "failures": fails[:8] + fails[-6:], "caps": c11.CAPS, "consumers": c11.CONSUMERS,
+           "event_names": sc.census["event_types"], "operations": sc.census["operations"]}
+    runs = []
+    for gmp in (1, 4, 16):
+        rs = c11.run_bubbles(sc, testbin, job, 16, gomaxprocs=gmp)
+        runs.append({json.dumps(r["cell"], sort_keys=True): json.dumps([r["events"], r["times"], r["choices"], r["dts"], r.get("milestones"), r.get("returned"), r.get("closed"), r.get("deadlock")]) for r in rs})
+    diff = [k for k in runs[0] if any(x.get(k) != runs[0][k] for x in runs[1:])]
+    report["engine_B"] = {"cells": len(runs[0]), "configs": "GOMAXPROCS 1/4/16", "diverging_cells": diff[:5], "n_diverging": len(diff)}
+    bad += ["B:" + d[:80] for d in diff]
+    pairs = c18_pairs(sc, "quick")
+    hists = [c18.gen_history(random.Random(vlib.splitmix(777 + i)), pairs, i) for i in range(24)]
+    outs = []
+    for rep in range(2):
+        ex = c18.Exec(sc, simacv, {})
+        outs.append([json.dumps(ex.run_history(h), sort_keys=True) for h in hists])
+    diff = [i for i in range(len(hists)) if outs[0][i] != outs[1][i]]
+    report["engine_C"] = {"histories": len(hists), "repetitions": 2, "diverging_histories": diff}
+    bad += ["C:%d" % d for d in diff]
+    report["wall_s"] = round(time.time() - t0, 1)
+    json.dump(report, open(os.path.join(vlib.out_dir(), "selftest.json"), "w"), indent=1)
+    print(json.dumps(report, indent=1))
+    if bad:
+        raise HarnessError("determinism self-test failed: %s" % bad[:10])
+    print("selftest: all engines replay identically")
+    return 0
+
+
 def free_running_pass(sc, racebin, plain, seed):
     return {"violations": 0, "note": "not built yet"}
 
@@ -717,6 +773,8 @@ def main():
             sc.build("./simharness", "simharness-race", race=True)
             sc.build("./simbubble", "simbubble.test", go=vlib.GO126, test=True)
             return 0
+        if args[0] == "selftest":
+            return selftest()
         if args[0] == "--replay":
             import replay
             return replay.replay_file(args[1])
